@@ -414,7 +414,7 @@ func raceStock(h *raceH, p *prng, rounds int, dir string, withEnc bool) {
 					done <- err
 				}(k)
 			}
-			deadline := time.After(2 * time.Second)
+			deadline := time.After(8 * time.Second)
 			for k := 0; k < nC; k++ {
 				select {
 				case err := <-done:
@@ -422,7 +422,7 @@ func raceStock(h *raceH, p *prng, rounds int, dir string, withEnc bool) {
 						h.oracle("C19 ChannelSink shared by %d senders: Process reported success although nobody receives", nC)
 					}
 				case <-deadline:
-					h.oracle("C19 ChannelSink shared by %d overlapping senders with a stalled consumer (timeout 30ms): only %d of them returned within 2s, the rest is blocked for ever", nC, k)
+					h.oracle("C19 ChannelSink shared by %d overlapping senders with a stalled consumer (timeout 30ms): only %d of them returned within 8s, the rest is blocked for ever", nC, k)
 					k = nC
 				}
 			}
@@ -692,8 +692,8 @@ func raceReopen(h *raceH, p *prng, rounds int) {
 		go func() { first <- b.Reopen(ctx) }()
 		select {
 		case <-inCh:
-		case <-time.After(2 * time.Second):
-			h.oracle("C20 Reopen did not reach any node within 2s")
+		case <-time.After(8 * time.Second):
+			h.oracle("C20 Reopen did not reach any node within 8s")
 			close(gate)
 			continue
 		}
